@@ -183,6 +183,10 @@ Proof.
   - apply IH.
 Qed.
 
+Lemma merge_row_conserves_len fuel sc sv dc nw dvals killed :
+  length sv = length sc -> merge_row fuel sc sv dc nw = Some (dvals, killed) -> length dvals = length dc.
+Proof. intros H1 H2. exact (proj1 (merge_row_conserves fuel sc sv dc nw dvals killed H1 H2)). Qed.
+
 (* ---------- C01 (partial): the unchecked steps of the column walk ---------- *)
 (* `new_components.next().unwrap_unchecked()` and `debug_assert_eq!(component_idx, dst_comp_idx)`
    are never reached with a missing or mismatching value: the walk succeeds whenever the
